@@ -1,0 +1,177 @@
+//! Verification hooks (only compiled with `--cfg chalk_verif`).
+//!
+//! A thread-local event sink. Instrumented code calls [`emit`] at the
+//! linearization point of each state transition; a harness installs the sink
+//! with [`install`], runs the code and collects the events with [`take`].
+//! When no sink is installed every hook is a cheap no-op.
+
+use std::cell::RefCell;
+use std::collections::hash_map::DefaultHasher;
+use std::collections::HashSet;
+use std::fmt::{Debug, Write};
+use std::hash::{Hash, Hasher};
+
+/// Payload of the panic raised when the work budget is exceeded.
+#[derive(Debug)]
+pub struct BudgetExceeded(pub u64);
+
+struct Sink {
+    events: Vec<String>,
+    seq: u64,
+    budget: Option<u64>,
+    defs: bool,
+    seen: HashSet<u64>,
+}
+
+thread_local! {
+    static SINK: RefCell<Option<Sink>> = RefCell::new(None);
+}
+
+/// Installs a fresh sink on this thread. `defs`: also emit one `Def` event
+/// (fingerprint -> Debug text) the first time a fingerprint is produced.
+/// `budget`: panic with [`BudgetExceeded`] once more than this many events
+/// have been emitted (a deterministic work limit).
+pub fn install(defs: bool, budget: Option<u64>) {
+    SINK.with(|s| {
+        *s.borrow_mut() = Some(Sink {
+            events: Vec::new(),
+            seq: 0,
+            budget,
+            defs,
+            seen: HashSet::new(),
+        })
+    });
+}
+
+/// Changes the work budget of the installed sink (counted from now).
+pub fn set_budget(budget: Option<u64>) {
+    SINK.with(|s| {
+        if let Some(sink) = s.borrow_mut().as_mut() {
+            sink.budget = budget.map(|b| b + sink.seq);
+        }
+    });
+}
+
+/// Removes the sink and returns the events recorded so far.
+pub fn uninstall() -> Vec<String> {
+    SINK.with(|s| s.borrow_mut().take().map(|s| s.events).unwrap_or_default())
+}
+
+/// Returns (and clears) the events recorded so far, keeping the sink.
+pub fn take() -> Vec<String> {
+    SINK.with(|s| {
+        s.borrow_mut()
+            .as_mut()
+            .map(|s| std::mem::take(&mut s.events))
+            .unwrap_or_default()
+    })
+}
+
+/// Number of events emitted since the sink was installed.
+pub fn count() -> u64 {
+    SINK.with(|s| s.borrow().as_ref().map(|s| s.seq).unwrap_or(0))
+}
+
+/// Is a sink installed on this thread?
+pub fn enabled() -> bool {
+    SINK.with(|s| s.borrow().is_some())
+}
+
+/// Builder for the fields of one event.
+pub struct Fields(String);
+
+impl Fields {
+    /// integer field
+    pub fn int(&mut self, k: &str, v: usize) -> &mut Self {
+        let _ = write!(self.0, ",\"{}\":{}", k, v);
+        self
+    }
+    /// boolean field
+    pub fn bool(&mut self, k: &str, v: bool) -> &mut Self {
+        let _ = write!(self.0, ",\"{}\":{}", k, v);
+        self
+    }
+    /// string field
+    pub fn str(&mut self, k: &str, v: &str) -> &mut Self {
+        let _ = write!(self.0, ",\"{}\":\"{}\"", k, escape(v));
+        self
+    }
+    /// raw JSON field (the caller guarantees `v` is valid JSON)
+    pub fn raw(&mut self, k: &str, v: &str) -> &mut Self {
+        let _ = write!(self.0, ",\"{}\":{}", k, v);
+        self
+    }
+}
+
+/// Escapes a string for inclusion in JSON.
+pub fn escape(v: &str) -> String {
+    let mut out = String::with_capacity(v.len());
+    for c in v.chars() {
+        match c {
+            '"' => out.push_str("\\\""),
+            '\\' => out.push_str("\\\\"),
+            '\n' => out.push_str("\\n"),
+            '\t' => out.push_str("\\t"),
+            c if (c as u32) < 0x20 => {
+                let _ = write!(out, "\\u{:04x}", c as u32);
+            }
+            c => out.push(c),
+        }
+    }
+    out
+}
+
+/// Emits one event (no-op without a sink).
+pub fn emit(ev: &str, f: impl FnOnce(&mut Fields)) {
+    if !enabled() {
+        return;
+    }
+    let mut fields = Fields(String::new());
+    f(&mut fields);
+    let over = SINK.with(|s| {
+        let mut s = s.borrow_mut();
+        let sink = s.as_mut().unwrap();
+        sink.seq += 1;
+        let line = format!("{{\"seq\":{},\"ev\":\"{}\"{}}}", sink.seq, ev, fields.0);
+        sink.events.push(line);
+        match sink.budget {
+            Some(b) if sink.seq > b => Some(sink.seq),
+            _ => None,
+        }
+    });
+    if let Some(n) = over {
+        std::panic::panic_any(BudgetExceeded(n));
+    }
+}
+
+/// Stable fingerprint of a value (16 hex digits), computed from its `Hash` impl, so
+/// that values are equal iff (up to hash collisions) their fingerprints are.  With a
+/// `defs` sink the `Debug` text is recorded once per fingerprint.
+pub fn fp<T: Debug + Hash + ?Sized>(v: &T) -> String {
+    if !enabled() {
+        return String::new();
+    }
+    let mut h = DefaultHasher::new();
+    v.hash(&mut h);
+    let n = h.finish();
+    let key = format!("{:016x}", n);
+    let def = SINK.with(|s| {
+        let mut s = s.borrow_mut();
+        let sink = s.as_mut().unwrap();
+        sink.defs && sink.seen.insert(n)
+    });
+    if def {
+        let text = format!("{:?}", v);
+        SINK.with(|s| {
+            let mut s = s.borrow_mut();
+            let sink = s.as_mut().unwrap();
+            let line = format!(
+                "{{\"seq\":0,\"ev\":\"Def\",\"fp\":\"{}\",\"text\":\"{}\"}}",
+                key,
+                escape(&text)
+            );
+            sink.events.push(line);
+        });
+    }
+    key
+}
